@@ -10,6 +10,7 @@ import (
 	"os"
 	"path/filepath"
 	"regexp"
+	"runtime/debug"
 	"sort"
 	"strconv"
 	"strings"
@@ -365,9 +366,42 @@ func ParallelFor(n, workers int, body func(i int)) {
 				if i >= n {
 					return
 				}
-				body(i)
+				runGuarded(func() { body(i) })
 			}
 		}()
 	}
 	wg.Wait()
+}
+
+// PanicHook receives panics that escape a ParallelFor body (value and stack).
+// The command sets it to record a violation when the panic comes out of the
+// library under test, an internal error otherwise; without a hook the panic is
+// re-raised.
+var PanicHook func(v any, stack string)
+
+func runGuarded(f func()) {
+	defer func() {
+		if v := recover(); v != nil {
+			if PanicHook == nil {
+				panic(v)
+			}
+			PanicHook(v, string(debug.Stack()))
+		}
+	}()
+	f()
+}
+
+// LibraryFrame returns the first stack frame inside the module under test
+// ("" when the panic did not pass through it).
+func LibraryFrame(stack string) string {
+	for _, l := range strings.Split(stack, "\n") {
+		l = strings.TrimSpace(l)
+		if strings.HasPrefix(l, "github.com/ipfs/go-unixfsnode") && !strings.Contains(l, "/verifrt") {
+			if i := strings.LastIndex(l, "("); i > 0 {
+				l = l[:i]
+			}
+			return strings.TrimPrefix(l, "github.com/ipfs/go-unixfsnode/")
+		}
+	}
+	return ""
 }
